@@ -3,6 +3,8 @@ package recordio
 import (
 	"errors"
 	"io"
+
+	"github.com/ncw/directio"
 )
 
 type WriteSeekerCloser interface {
@@ -180,6 +182,38 @@ func (b *Reader) Buffered() int { return b.w - b.r }
 // the buffered reader to read from r.
 func (b *Reader) Reset(r io.Reader) {
 	b.reset(b.buf, r)
+	if b.alignedReads {
+		b.alignPosition()
+	}
+}
+
+// alignPosition makes an aligned (direct IO) reader usable after its file was positioned at an arbitrary offset,
+// e.g. by the seek that skips a record: direct IO can only read from block aligned file offsets, so the file is moved
+// back to the preceding block boundary and the bytes in front of the requested position are read and dropped.
+func (b *Reader) alignPosition() {
+	s, ok := b.rd.(io.Seeker)
+	if !ok {
+		return
+	}
+	pos, err := s.Seek(0, io.SeekCurrent)
+	if err != nil {
+		b.err = err
+		return
+	}
+	skip := int(pos % int64(directio.BlockSize))
+	if skip == 0 {
+		return
+	}
+	if _, err = s.Seek(pos-int64(skip), io.SeekStart); err != nil {
+		b.err = err
+		return
+	}
+	b.fill()
+	if b.w < skip {
+		// the requested position lies behind the end of the file
+		skip = b.w
+	}
+	b.r = skip
 }
 
 func (b *Reader) reset(buf []byte, r io.Reader) {
